@@ -6,7 +6,7 @@
    ([extraction_of], [ICopy]); the harness exercises that on generated trees. *)
 From Coq Require Import List NArith Bool.
 From Conductor Require Import Lib.Str Model.Archive Proofs.ArchiveProofs.
-From Conductor Require Import Gen.Generated Model.ArchiveOut Proofs.ArchiveOutProofs Proofs.GenTieArchive.
+From Conductor Require Import Gen.Generated Model.ArchiveOut Proofs.ArchiveOutProofs Proofs.GenTieArchiveOut.
 Import ListNotations.
 Open Scope N_scope.
 
